@@ -202,7 +202,7 @@ theorem streamClose_tie {α δ : Type} {S : DstSpec} (hS : S.NeverFails) (A : AE
     ∃ w2, stream_Writer_Close E.seal_ D.write w = .ok (none, w2) ∧
       (D.absD w2.dst).acc = acc0 ++ encrypt A 65536 k pt := by
   have hc : m.ctr * 65536 + m.buf.length = pt.length := hinv.2.2.1
-  obtain ⟨res, hres, h1, h2, _⟩ := writer_close_tie A k E D w m h (by omega)
+  obtain ⟨res, hres, h1, _, h2, _⟩ := writer_close_tie A k E D w m h (by omega)
   generalize hm : m.close A 65536 (2 ^ 88) k = mc at h1 h2
   obtain ⟨m1, e⟩ := mc
   cases e with
